@@ -28,7 +28,9 @@ def _level(r: random.Random, engine: str, depth: int, nlevels: int, lowmut: bool
         if engine == "ADAPT":
             lv["mstep"] = 0.02
     elif engine == "MWEA":
-        lv.update(pop=8, gens=r.choice([1, 2]), k_elites=2, election_group_size=5)
+        lv.update(pop=8, gens=r.choice([1, 2, 3]), k_elites=2, election_group_size=5)
+        if lowmut or r.random() < 0.3:
+            lv["p_mutation"] = r.choice([0.3, 0.6])
     elif engine in ("DE", "DEd"):
         lv.update(pop=r.choice([4, 5, 6, 8]), gens=r.choice([1, 2, 3]), crossover=r.choice([0.9, 0.5, 1.0]),
                   scaling=r.choice([0.8, 0.8, 0.5, 1.2, 1.5]))
@@ -65,12 +67,14 @@ def _level(r: random.Random, engine: str, depth: int, nlevels: int, lowmut: bool
 def random_spec(r: random.Random, idx: int) -> dict:
     nlevels = r.choice([1, 2, 2, 2, 3, 3, 3])
     lowmut = r.random() < 0.15
+    mw_lowmut = False
     engines = [r.choice(ROOT_ENGINES)] + [r.choice(CHILD_ENGINES) for _ in range(nlevels - 1)]
     levels = [_level(r, e, d, nlevels, lowmut) for d, e in enumerate(engines)]
     dim = r.choice([2, 2, 3, 4, 5, 6])
     spec = {"name": f"rand{idx}", "seed": r.randrange(1, 10 ** 6), "dim": dim, "box": r.choice(BOX),
             "fn": r.choice(FNS), "maximize": r.random() < 0.4, "levels": levels,
-            "hibernation": r.random() < 0.5, "idlecheck": not lowmut}
+            "hibernation": r.random() < 0.5,
+            "idlecheck": all(float(lv.get("p_mutation", 1.0)) >= 1.0 for lv in levels)}
     if r.random() < 0.4:
         spec["reports"] = True
     if r.random() < 0.3:
@@ -232,9 +236,45 @@ def lifecycle_specs() -> list[dict]:
     return out
 
 
+def engine_specs() -> list[dict]:
+    """Every engine variant of the properties' quantifier at least once as a root and once as a sprouted deme, with
+    several generations per metaepoch and (where the engine has one) a mutation probability below 1, so that
+    generation chaining (C11), elitism (C12) and storage (C02/C04) are exercised deterministically."""
+    out = []
+    base = {"dim": 2, "box": "sym", "fn": "multi", "gsc": {"kind": "MetaepochLimit", "n": 4},
+            "sprout": {"kind": "simple", "far": 0.02, "limit": 2}}
+    variants = [
+        {"engine": "SEA", "pop": 6, "gens": 4, "p_mutation": 0.4}, {"engine": "SEA", "pop": 6, "gens": 3, "k_elites": 2},
+        {"engine": "SEAX", "pop": 6, "gens": 3, "p_mutation": 0.5, "p_crossover": 0.6}, {"engine": "GA", "pop": 6, "gens": 3, "p_mutation": 0.3},
+        {"engine": "ADAPT", "pop": 6, "gens": 3, "mstep": 0.02, "p_mutation": 0.5},
+        {"engine": "MWEA", "pop": 8, "gens": 4, "k_elites": 2, "election_group_size": 5, "p_mutation": 0.4},
+        {"engine": "MWEA", "pop": 8, "gens": 3, "k_elites": 2, "election_group_size": 5},
+        {"engine": "DE", "pop": 6, "gens": 4, "crossover": 0.5}, {"engine": "DEd", "pop": 6, "gens": 3},
+        {"engine": "DE", "pop": 6, "gens": 3, "scaling": 1.5}, {"engine": "SHADE", "pop": 6, "gens": 4, "mem": 3},
+        {"engine": "CUSTOM", "pop": 6, "gens": 3, "p_mutation": 0.5},
+    ]
+    n = 0
+    for v in variants:
+        for maximize in (False, True):
+            n += 1
+            lows = any(float(v.get("p_mutation", 1.0)) < 1.0 for _ in [0])
+            out.append(dict(base, name=f"eng{n}", seed=500 + n, maximize=maximize, levels=[dict(v)], idlecheck=not lows,
+                            fn=["multi", "plateau", "offset"][n % 3]))
+            n += 1
+            out.append(dict(base, name=f"eng{n}", seed=500 + n, maximize=maximize, idlecheck=not lows,
+                            levels=[{"engine": "SEA", "pop": 8, "gens": 1}, dict(v)], fn=["funnels", "multi", "sphere"][n % 3]))
+    for child in ({"engine": "CMA", "gens": 3}, {"engine": "CMAw", "gens": 3}, {"engine": "CMAs", "gens": 2}, {"engine": "LOCAL"},
+                  {"engine": "LHS", "pop": 5}, {"engine": "SOBOL", "pop": 4}):
+        for maximize in (False, True):
+            n += 1
+            out.append(dict(base, name=f"eng{n}", seed=500 + n, maximize=maximize,
+                            levels=[{"engine": "DE", "pop": 8, "gens": 1}, dict(child)], fn=["funnels", "zero"][n % 2]))
+    return out
+
+
 def gen_specs(seed: int, n_random: int, tier: str = "quick") -> list[dict]:
     r = random.Random(seed)
-    specs = repo_test_specs() + sweep_specs(tier) + lifecycle_specs()
+    specs = repo_test_specs() + sweep_specs(tier) + lifecycle_specs() + engine_specs()
     for i in range(n_random):
         specs.append(random_spec(r, i))
     return specs
